@@ -309,7 +309,9 @@ func TestC18(t *testing.T) {
 		fileArg, name, stdin := "", "/dev/stdin", src
 		switch mode {
 		case "file":
-			fileArg, name, stdin = "p.bcl", "p.bcl", ""
+			fileArg = gen.Pick(t, "filename", []string{"p.bcl", "p.bcl", "conf.bcl.d/in.bcl", "a.bcl.bcl", "x.bclx/y.bcl", ".bcl"})
+			name, stdin = fileArg, ""
+			must(os.MkdirAll(filepath.Join(dir, filepath.Dir(fileArg)), 0o755))
 		case "file-other-suffix":
 			fileArg, name, stdin = "sub/cfg.txt", "sub/cfg.txt", ""
 			must(os.MkdirAll(filepath.Join(dir, "sub"), 0o755))
@@ -361,7 +363,8 @@ func TestC18(t *testing.T) {
 			bf := "out.bcb"
 			dumpArg := "--bdump=" + bf
 			if mode == "file" && gen.Bool(t, "derive") {
-				dumpArg, bf = "--bdump", "p.bcb"
+				// the documented derivation: the .bcl suffix becomes .bcb
+				dumpArg, bf = "--bdump", strings.TrimSuffix(fileArg, ".bcl")+".bcb"
 			}
 			argvD := placeFile(t, append(spellFlags(t, fl), dumpArg), fileArg)
 			gd := runCLI(dir, stdin, argvD...)
